@@ -105,7 +105,7 @@ def discharge_one(ob, cross=False):
         # sat under quantified hypotheses is rarely decidable: fall back to the quantifier-free hypotheses (weaker vacuity guard, stated)
         from .core import _has_quantifier
         s2 = z3.Solver()
-        s2.set("timeout", 5000)
+        s2.set("timeout", 30000)            # generous: these queries take up to 5 s on an idle machine and must not flip when all cores are busy
         s2.add(*[h for h in ob.hyps if not _has_quantifier(h)])
         s2.add(neg)
         r = s2.check()
